@@ -70,9 +70,28 @@ def run_instance(pid, inst, tier, invariants=None, extra=None, emit=True, timeou
     return r, cases
 
 
-def replay(pid, inst, cases):
+RENDER_TAGS = {"C01": {"FIELDS_DIFFER", "STRUCT_COUNT"}, "C03": {"FIELDS_DIFFER", "STRUCT_COUNT"},
+               "C09": {"FIELD_ORDER", "STRUCT_ORDER", "SORT_CHANGES_MORE", "STRUCT_COUNT"}}
+
+
+def replay(pid, inst, cases, rep=None, render_limit=1500):
     mm = os.path.join(c.OUT, "cases", "%s-%s.mismatch.ndjson" % (pid, inst))
-    s = c.harness(["parser-replay", "--cases", cases, "--mismatches", mm], timeout=3000)
+    args = ["parser-replay", "--cases", cases, "--mismatches", mm]
+    rtrace = None
+    if rep is not None and pid in RENDER_TAGS:
+        # the renderings of the enumerated histories are judged as well (a stride keeps the judging time bounded)
+        n = sum(1 for _ in open(cases))
+        rtrace = os.path.join(c.OUT, "traces", "%s-%s-render.ndjson" % (pid, inst))
+        args += ["--render-trace", rtrace, "--render-stride", max(1, n // render_limit)]
+    s = c.harness(args, timeout=3000)
+    if rtrace:
+        from . import render_common as rc
+        rc.check_chars()
+        n, infos, st = c.judge_trace("RenderTrace", rtrace, "%s-%s-render" % (pid, inst))
+        events = c.read_ndjson(rtrace)
+        cnt, drift = rc.classify(rep, infos, RENDER_TAGS[pid], events, "rendering of the histories of instance %s" % inst)
+        rep.add(histories_rendered=n, render_drift=drift, traces_validated_against_impl=n)
+        os.remove(rtrace)
     if s.get("serializer_failures"):
         raise c.ToolError("%s/%s: the XML serializer self-check failed on %d cases" % (pid, inst, s["serializer_failures"]))
     if s.get("reference_disagreements"):
@@ -115,13 +134,14 @@ def record_and_validate(rep, pid, mode, sessions, elems=30, name=None, damage=8)
     the tree, whatever the character data of the documents was."""
     trace = os.path.join(c.OUT, "traces", "%s-schema.ndjson" % pid)
     rtrace = os.path.join(c.OUT, "traces", "%s-schema-render.ndjson" % pid)
-    extra = ["--render-trace", rtrace] if mode in ("C01", "C03") else []
+    extra = ["--render-trace", rtrace] if mode in ("C01", "C03", "C09") else []
     t = c.harness(["schema-record", "--seed", c.seed(), "--n", sessions, "--elems", elems, "--damage", damage, "--out", trace] + extra)
     if extra:
         from . import render_common as rc
         n, infos, st = c.judge_trace("RenderTrace", rtrace, "%s-schema-render" % pid)
         events = c.read_ndjson(rtrace)
-        cnt, drift = rc.classify(rep, infos, {"FIELDS_DIFFER", "STRUCT_COUNT"}, events, "rendering of parsed sessions")
+        relevant = rc.C09_TAGS if mode == "C09" else {"FIELDS_DIFFER", "STRUCT_COUNT"}
+        cnt, drift = rc.classify(rep, infos, relevant, events, "rendering of parsed sessions")
         rep.add(parsed_trees_rendered=n, render_drift=drift)
     acc, rej, st = c.validate_trace("SchemaTrace", trace, name or "%s-schema" % pid, extra_env={"MODE": mode}, timeout=1500)
     rep.add(traces_validated_against_impl=acc, trace_events=t["events"], trace_calls=t["calls"], trace_states=st)
@@ -149,7 +169,7 @@ def check(rep, pid, tier, instances, classes, mode, sessions, invariants=None, c
         r, cases = run_instance(pid, inst, tier, invariants=invariants)
         model_violation(rep, r)
         rep.add(states=r.distinct, transitions=r.generated)
-        s, mm = replay(pid, inst, cases)
+        s, mm = replay(pid, inst, cases, rep, render_limit=1500 if tier == "quick" else 40000)
         if s["cases"] != r.replay_count:
             raise c.ToolError("%s/%s: %d cases printed, %d replayed" % (pid, inst, r.replay_count, s["cases"]))
         total_cases += s["cases"]
